@@ -8,6 +8,9 @@
 //	mode "race"  (meaningful in the -race build) starts and shuts down real containers whose definition
 //	             scanners fail for chosen components; every scenario runs in a child process so that a
 //	             data-race report (exit code 66) is the outcome of that scenario.
+//	mode "stress" (run in the -race build AND in the normal build; see stress.go) G goroutines released together by a
+//	             spin barrier run generated operation lists on ONE shared container, truly in parallel and without
+//	             any synchronisation added by the driver; every case runs in a child process.
 package main
 
 import (
@@ -295,12 +298,12 @@ func runHist(c HistCase) (out HistOut) {
 
 type RaceCase struct {
 	ID         int   `json:"id"`
-	N          int   `json:"n"`           // plain components
-	FailScan   []int `json:"fail_scan"`   // indices of components whose definition scan fails
-	Closers    int   `json:"closers"`     // closer components
-	FailClose  []int `json:"fail_close"`  // indices of closers whose Close fails
-	Scanners   int   `json:"scanners"`    // number of user scanners (each fails for the same components)
-	Concurrent int   `json:"concurrent"`  // additional direct LoadOrStoreFn stress goroutines (0 = none)
+	N          int   `json:"n"`          // plain components
+	FailScan   []int `json:"fail_scan"`  // indices of components whose definition scan fails
+	Closers    int   `json:"closers"`    // closer components
+	FailClose  []int `json:"fail_close"` // indices of closers whose Close fails
+	Scanners   int   `json:"scanners"`   // number of user scanners (each fails for the same components)
+	Concurrent int   `json:"concurrent"` // additional direct LoadOrStoreFn stress goroutines (0 = none)
 }
 type RaceOut struct {
 	ID      int    `json:"id"`
@@ -459,12 +462,21 @@ func main() {
 		hx.WriteOutput(runRaceScenario(c))
 		return
 	}
+	if len(os.Args) > 1 && os.Args[1] == "-stress-child" {
+		os.Args = os.Args[:1]
+		var c StressCase
+		hx.ReadInput(&c)
+		hx.Quiet()
+		hx.WriteOutput(runStressCase(c))
+		return
+	}
 	var in struct {
-		Mode string     `json:"mode"`
-		Seq  []SeqCase  `json:"seq"`
-		Hist []HistCase `json:"hist"`
-		Race []RaceCase `json:"race"`
-		Par  int        `json:"par"`
+		Mode string       `json:"mode"`
+		Seq  []SeqCase    `json:"seq"`
+		Hist []HistCase   `json:"hist"`
+		Race []RaceCase   `json:"race"`
+		Strs []StressCase `json:"stress"`
+		Par  int          `json:"par"`
 	}
 	hx.ReadInput(&in)
 	hx.Quiet()
@@ -502,6 +514,8 @@ func main() {
 		}
 		wg.Wait()
 		res["outs"] = outs
+	case "stress":
+		res["outs"] = runStressAll(in.Strs, in.Par)
 	}
 	hx.WriteOutput(res)
 }
